@@ -472,6 +472,8 @@ pub fn run_stdin() {
     let stdout = std::io::stdout();
     let mut out = std::io::BufWriter::new(stdout.lock());
     let mut o = Obj::None;
+    // interactive use (feedback streams: the caller reads each answer before writing the next operation)
+    let flush = std::env::var("VERIF_EXEC_FLUSH").is_ok();
     for line in stdin.lock().lines() {
         let line = line.unwrap();
         let ws: Vec<&str> = line.split_whitespace().collect();
@@ -481,6 +483,9 @@ pub fn run_stdin() {
         }
         let s = step(&mut o, &ws);
         writeln!(out, "{}", s).unwrap();
+        if flush {
+            out.flush().unwrap();
+        }
     }
     let _ = canon(0);
 }
